@@ -50,7 +50,7 @@ def replay(args, outdir):
                     for pos in range(bs, be):
                         exp.update(S.at(feats, pos, q))
                 else:
-                    exp.update(S.between(feats, bs, be, q))
+                    exp.update(S.between(feats, bs, be - 1, q))
             if sorted(set(S.names(got))) != sorted(exp):
                 clause = 'read.method%d' % a['method']
         elif lemma == 'L2b_molecule_annotation':
@@ -98,6 +98,11 @@ def replay(args, outdir):
                 add(i, x0, y0)
                 if a['explicit_sort']:
                     fc.sort()
+                if a.get('range_first'):
+                    for qi in qs:
+                        x = POOL[qi]
+                        if clause is None and S.names(fc.findFeaturesBetween('chr1', x, x + 2)) != S.between(feats, x, x + 2, None):
+                            clause = 'stale_range_query_after_add'
                 for qi in qs:
                     x = POOL[qi]
                     if clause is None and S.names(fc.findFeaturesAt('chr1', x)) != S.at(feats, x, None):
